@@ -14,7 +14,7 @@ Section EvalQ.
     eflags : list bool;            (* m_qubits[i].measured *)
     efree : list nat;              (* m_freeQubitIndices, head = back() *)
     elast : list (option bool);    (* m_lastMeasurement, None = -1 *)
-    eenv : list (list nat)         (* declared handles: handle id -> simulator indices *)
+    eenv : list (option (list nat)) (* declared handles: handle id -> simulator indices; None once released *)
   }.
   Definition evq_init : evq :=
     {| esim := sim_init O; eflags := []; efree := []; elast := []; eenv := [] |}.
@@ -102,17 +102,15 @@ Section EvalQ.
       end
     end.
 
-  Fixpoint ev_measure_all (e : evq) (is : list nat) (ds : list F) : (evq * list bool * list F) + eerr :=
+  (* measure q[] : element by element; stops at the first refusal, keeping what was already measured *)
+  Fixpoint ev_measure_all (e : evq) (is : list nat) (ds : list F) : evq * list bool * list F * option eerr :=
     match is with
-    | [] => inl (e, [], ds)
+    | [] => (e, [], ds, None)
     | i :: r =>
       match ev_measure e i ds with
-      | inr x => inr x
+      | inr x => (e, [], ds, Some x)
       | inl (e1, b, ds1) =>
-        match ev_measure_all e1 r ds1 with
-        | inr x => inr x
-        | inl (e2, bs, ds2) => inl (e2, b :: bs, ds2)
-        end
+        let '(e2, bs, ds2, err) := ev_measure_all e1 r ds1 in (e2, b :: bs, ds2, err)
       end
     end.
 
@@ -150,11 +148,18 @@ Section EvalQ.
   | EReset (h el : nat)
   | ERelease (h : nat).
 
-  Definition resolve (e : evq) (h el : nat) : option nat :=
+  Definition handle (e : evq) (h : nat) : option (list nat) :=
     match nth_error (eenv e) h with
+    | Some (Some is) => Some is
+    | _ => None
+    end.
+  Definition resolve (e : evq) (h el : nat) : option nat :=
+    match handle e h with
     | Some is => nth_error is el
     | None => None
     end.
+  Definition drop_handle (h : nat) (env : list (option (list nat))) : list (option (list nat)) :=
+    if h <? length env then upd h None env else env.
 
   Inductive eres := ROk (bits : list bool) | RErr (x : eerr).
 
@@ -162,7 +167,7 @@ Section EvalQ.
     match o with
     | EDecl k =>
       let '(e1, is, ds1) := alloc_many k e ds in
-      ({| esim := esim e1; eflags := eflags e1; efree := efree e1; elast := elast e1; eenv := eenv e1 ++ [is] |}, ROk [], ds1)
+      ({| esim := esim e1; eflags := eflags e1; efree := efree e1; elast := elast e1; eenv := eenv e1 ++ [Some is] |}, ROk [], ds1)
     | EGate g h el =>
       match resolve e h el with
       | None => (e, RErr EBadHandle, ds)
@@ -179,9 +184,12 @@ Section EvalQ.
       | Some i => match ev_measure e i ds with inl (e', b, ds') => (e', ROk [b], ds') | inr x => (e, RErr x, ds) end
       end
     | EMeasAll h =>
-      match nth_error (eenv e) h with
+      match handle e h with
       | None => (e, RErr EBadHandle, ds)
-      | Some is => match ev_measure_all e is ds with inl (e', bs, ds') => (e', ROk bs, ds') | inr x => (e, RErr x, ds) end
+      | Some is => match ev_measure_all e is ds with
+                   | (e', bs, ds', None) => (e', ROk bs, ds')
+                   | (e', _, ds', Some x) => (e', RErr x, ds')
+                   end
       end
     | EReset h el =>
       match resolve e h el with
@@ -189,9 +197,14 @@ Section EvalQ.
       | Some i => match ev_reset e i ds with inl (e', ds') => (e', ROk [], ds') | inr x => (e, RErr x, ds) end
       end
     | ERelease h =>
-      match nth_error (eenv e) h with
+      match handle e h with
       | None => (e, RErr EBadHandle, ds)
-      | Some is => match ev_release e is ds with inl (e', ds') => (e', ROk [], ds') | inr x => (e, RErr x, ds) end
+      | Some is =>
+        match ev_release e is ds with
+        | inl (e', ds') =>
+          ({| esim := esim e'; eflags := eflags e'; efree := efree e'; elast := elast e'; eenv := drop_handle h (eenv e') |}, ROk [], ds')
+        | inr x => (e, RErr x, ds)
+        end
       end
     end.
 
